@@ -701,6 +701,8 @@ def family(name):
         return SymNet(3)
     if name == "D3":
         return SymNet(3, ignore_one=True)
+    if name == "U4":
+        return SymNet(4)
     if name == "B22":      # blocks {a,b},{c,d}, optional feed-forward a->c
         return SymNet(4, wiring={0: (0, 1), 1: (0, 1), 2: (0, 2, 3), 3: (2, 3)})
     if name == "B21":      # blocks {a,b},{c}: a<-(a,b) b<-(a,b) c<-(a,c)
@@ -744,6 +746,31 @@ def family(name):
         # c alone is not self-sustaining, so the stable motif is the pair {c, d}
         cs.append(fOr([fNot(net.F[2][x]) for x in net.states if x[2] == 1 and x[3] == 0 and x[0] == x[1]]))
         cs.append(fOr([net.trap(S) for S in net.subspaces if S[2] == 0 and S[3] == 0]))
+        net.family_constraints += cs
+        return net
+    if name == "MAAD4":
+        # a 3-variable core (a, b, c) constrained to have a motif-avoidant attractor, and a fourth variable d <- (d, a)
+        # downstream of it that has a self-sustaining value: the blocks of the motifs are nested ({a,b,c} inside
+        # {a,b,c,d}) and the minimal one is not free of motif-avoidant attractors
+        from . import specs
+        net = SymNet(4, wiring={0: (0, 1, 2), 1: (0, 1, 2), 2: (0, 1, 2), 3: (3, 0)})
+        core = SymNet(3, tag="F")          # same bit names as the first three variables of `net` (same wiring, same tag)
+        net.family_constraints.append(specs.has_motif_avoidant(core))
+        net.family_constraints += core.take_pending_defs()
+        E = (None,) * 4
+        p, q = net.reg(0, 3, E)
+        net.family_constraints.append(fOr([p, q]))                                        # d really depends on a
+        net.family_constraints.append(fOr([net.trap((None, None, None, 0)), net.trap((None, None, None, 1))]))
+        return net
+    if name == "DRV4":
+        # 4 variables; the all-ones state is a fixed point that {a,b}=1 forces, {a,c,d}=1 forces as well, while no
+        # proper subset of either does: minimal driver sets of different sizes that share a variable
+        net = SymNet(4)
+        ones = (1, 1, 1, 1)
+        cs = [net.trap(ones), net.perc_eq((1, 1, None, None), ones), net.perc_eq((1, None, 1, 1), ones)]
+        for S in [(1, None, None, None), (None, 1, None, None), (1, None, 1, None), (1, None, None, 1), (None, None, 1, 1), (None, None, 1, None), (None, None, None, 1)]:
+            cs.append(fNot(net.perc_eq(S, ones)))
+        cs.append(net.perc_eq((None,) * 4, (None,) * 4))
         net.family_constraints += cs
         return net
     if name == "SKIP3":
@@ -807,6 +834,16 @@ def component(name, tag):
         c.family_constraints.append(fOr([fAnd([c.attr(st), fNot(inmin(st))]) for st in c.states if st[0] == 1]))
         c.family_constraints += [z3.Implies(c.attr(st), inmin(st)) for st in c.states if st[0] == 0]
         c.family_constraints += c.take_pending_defs()
+        return c
+    if name == "MAAD4":
+        from . import specs
+        c = SymNet(4, wiring={0: (0, 1, 2), 1: (0, 1, 2), 2: (0, 1, 2), 3: (3, 0)}, tag=tag)
+        core = SymNet(3, tag=tag)
+        c.family_constraints.append(specs.has_motif_avoidant(core))
+        c.family_constraints += core.take_pending_defs()
+        p, q = c.reg(0, 3, (None,) * 4)
+        c.family_constraints.append(fOr([p, q]))
+        c.family_constraints.append(fOr([c.trap((None, None, None, 0)), c.trap((None, None, None, 1))]))
         return c
     if name in ("NB3", "NB3r"):
         # nested blocks: a <- (a, b), b <- (c), c <- (b).  Constrained so that the cycle {b, c} carries a stable motif of its
